@@ -222,8 +222,8 @@ val run_ops : bool -> inflights -> op list -> n list
 
 val run_inflights : n list -> n list
 
-type entry = { e_term : n; e_index : n; e_type : n; e_data : n list;
-               e_context : n list; e_sync_log : bool }
+type entry = { e_type : n; e_term : n; e_index : n; e_data : n list;
+               e_context : n list }
 
 val varint_len : n -> n
 
@@ -430,7 +430,7 @@ val map_sres : ('a1 -> 'a2) -> 'a1 sres -> 'a2 sres
 
 val step0 : mem -> op0 -> (mem * ret sres) res
 
-val take_list : n list -> (n list * n list) option
+val dec_list : n list -> (n list * n list) option
 
 val parse_cs : n list -> (conf_state * n list) option
 
@@ -450,9 +450,9 @@ val enc_cs : conf_state -> n list
 
 val sum_bytes : n list -> n
 
-val enc_entry : entry -> n list
+val enc_entry_c : entry -> n list
 
-val enc_entries : entry list -> n list
+val enc_entries_c : entry list -> n list
 
 val enc_snap : snapshot -> n list
 
